@@ -39,7 +39,16 @@ SAFE_DEFS = {"a": {"type": ["string", "null"], "enum": ["s", None]}, "b": {"mini
 @st.composite
 def cases(draw):
     d = draw(st.sampled_from(impl.DRAFTS))
-    src = draw(st.integers(0, 11))
+    src = draw(st.integers(0, 12))
+    if src == 12:
+        # a format keyword met by strings that are hostile to format parsers (long digit runs, huge fields, NUL ...)
+        from . import c13
+        f = draw(st.sampled_from(["ipv4", "ip-address", "ipv6", "date", "time", "regex", "email", "idn-hostname"]))
+        s = {"format": f}
+        if draw(st.booleans()):
+            s["type"] = "string"
+        xs = [draw(st.sampled_from(c13.SEEDS[f])) for _ in range(3)]
+        return {"draft": d, "schema": s, "instances": xs, "flavour": "format-hostile", "probes": 0}
     if src >= 10:
         s = dict(draw(GS.schema_object(d, GS.schemas(d, 4))))
         s.pop("definitions", None)
